@@ -41,6 +41,7 @@ def logical_ops():
     ops["arc-z"] = shape(lambda p, d: c10.arc_case(p, d, 3.0, 270, 2.0, 135))
     ops["arc_radius"] = shape(lambda p, d: c10.arc_radius_case(p, d, 5.0, 0.6, 30))
     ops["arc_radius-major"] = shape(lambda p, d: c10.arc_radius_case(p, d, -5.0, 0.6, 200))
+    ops["arc_radius-z"] = shape(lambda p, d: c10.arc_radius_case(p, d, 4.0, 0.5, 100, dz=-2.0))
     ops["circle"] = shape(lambda p, d: c10.circle_case(p, d, 2.0, 60))
     ops["helix"] = shape(lambda p, d: c10.helix_case(p, d, 3.0, 0.5, 2, 90, 2.0, 200))
     ops["thread"] = shape(lambda p, d: c10.thread_case(p, d, 4.0, 20, 3.4, 1.0))
